@@ -133,19 +133,107 @@ func budgetStage1(n int) int64 { return 2000 * int64(n+1) * int64(n+1) * int64(n
 
 // ---- element types ---------------------------------------------------------------------
 
+// elemsFor: element types a routine is run with. Every routine runs on Float64 and Real64
+// (typed fast path where there is one, generic path); a routine that dispatches on the
+// element type (cholesky: Float32 and Float64 instantiations next to the generic one) also
+// runs on the 32 bit types, so that every instantiation sees the same inputs and options.
+func elemsFor(routine string) []string {
+	if routine == "cholesky" {
+		return []string{"Float64", "Real64", "Float32", "Real32"}
+	}
+	return []string{"Float64", "Real64"}
+}
+
+func is32(e string) bool { return e == "Float32" || e == "Real32" }
+
+// unit roundoff of float32
+const unitRoundoff32 = 1.0 / (1 << 24)
+
+// relTolFor: relative tolerance of the defining equations for the element type: 1e-9 for the
+// 64 bit types, 2^10·u for the 32 bit types (u = 2^-24).
+func relTolFor(e string) float64 {
+	if is32(e) {
+		return 1024 * unitRoundoff32
+	}
+	return relTol
+}
+
+// exact32: every entry is a float32 number (the input of a 32 bit case is exactly the
+// matrix that the reference side sees)
+func exact32(m lat.Mat) bool {
+	for _, v := range m.V {
+		if float64(float32(v)) != v {
+			return false
+		}
+	}
+	return true
+}
+
+// safelyPD32: every pivot of the LDLᵀ recurrence of A (float64, reference side) is at least
+// 64·n·2^-24·max a_ii: rounding in float32 cannot make a pivot non-positive.
+func safelyPD32(A lat.Mat) bool {
+	n := A.R
+	amax := 0.0
+	for i := 0; i < n; i++ {
+		amax = math.Max(amax, math.Abs(A.At(i, i)))
+	}
+	l := lat.New(n, n)
+	d := make([]float64, n)
+	for j := 0; j < n; j++ {
+		c := A.At(j, j)
+		for k := 0; k < j; k++ {
+			c -= l.At(j, k) * l.At(j, k) * d[k]
+		}
+		if !(c >= 64*float64(n)*unitRoundoff32*amax) {
+			return false
+		}
+		d[j] = c
+		l.Set(j, j, 1)
+		for i := j + 1; i < n; i++ {
+			s := A.At(i, j)
+			for k := 0; k < j; k++ {
+				s -= l.At(i, k) * l.At(j, k) * d[k]
+			}
+			l.Set(i, j, s/c)
+		}
+	}
+	return true
+}
+
 func elemType(e string) ad.ScalarType {
-	if e == "Real64" {
+	switch e {
+	case "Real64":
 		return ad.Real64Type
+	case "Float32":
+		return ad.Float32Type
+	case "Real32":
+		return ad.Real32Type
 	}
 	return ad.Float64Type
 }
 
-func mk(e string, m lat.Mat) ad.Matrix {
-	v := append([]float64{}, m.V...)
-	if e == "Real64" {
-		return ad.NewDenseReal64Matrix(v, m.R, m.C)
+func to32(v []float64) []float32 {
+	w := make([]float32, len(v))
+	for i, x := range v {
+		w[i] = float32(x)
 	}
-	return ad.NewDenseFloat64Matrix(v, m.R, m.C)
+	return w
+}
+
+func mkVals(e string, v []float64, r, c int) ad.Matrix {
+	switch e {
+	case "Real64":
+		return ad.NewDenseReal64Matrix(v, r, c)
+	case "Float32":
+		return ad.NewDenseFloat32Matrix(to32(v), r, c)
+	case "Real32":
+		return ad.NewDenseReal32Matrix(to32(v), r, c)
+	}
+	return ad.NewDenseFloat64Matrix(v, r, c)
+}
+
+func mk(e string, m lat.Mat) ad.Matrix {
+	return mkVals(e, append([]float64{}, m.V...), m.R, m.C)
 }
 
 func get(m ad.ConstMatrix) lat.Mat {
@@ -246,8 +334,13 @@ func runCase(cs *Case, bud int64) (out outcome) {
 	e := cs.Elem
 	a := mk(e, A)
 	scale := scaleOf(A)
-	tol := relTol * scale
+	tol := relTolFor(e) * scale
 	graded := cs.Graded != 0
+	if is32(e) && !exact32(A) {
+		out.status = "excluded32"
+		out.class = "input-not-representable-in-float32"
+		return
+	}
 
 	// exec runs the earlier calls of the case and then the judged call on one InSitu object,
 	// all under the tick budget. An earlier call that fails is not this case's business (it is
@@ -324,6 +417,11 @@ func runCase(cs *Case, bud int64) (out outcome) {
 		spd := lat.IsSPD(cs.Base, n)
 		out.class = symClass(cs.Base, n, spd)
 		out.trivial = isDiagonal(cs.Base, n)
+		if is32(e) && spd && !safelyPD32(A) {
+			// a pivot at the rounding level of float32: the factorisation may legitimately break down
+			out.status = "excluded32"
+			return
+		}
 		if !finish(exec()) {
 			return
 		}
